@@ -1638,6 +1638,82 @@ fn concurrent_flush_run(rng: &mut Rng, out: &mut Out, rec: &Arc<Recorder>, dir: 
     let _ = std::fs::remove_file(&path);
 }
 
+/// an outage that spans several flush attempts, with updates in between: every device write fails from some point
+/// on; keys written before are flushed (refused), updated, a few background ticks pass, flushed again (refused);
+/// the device comes back.  Whatever `flush()` then says - Ok on a handle that survived, or an error until the file
+/// is reopened - once a flush *is* acknowledged, deletes are issued and acknowledged, and the device as it stands
+/// is recovered: no deleted key may be there, and no key may show a state older than the last acknowledged one.
+fn outage_update_run(rng: &mut Rng, out: &mut Out, rec: &Arc<Recorder>, dir: &str, idx: u64) {
+    let blocks = 256u64;
+    let path = format!("{}/outupd{}.feox", dir, idx);
+    let _ = std::fs::remove_file(&path);
+    *rec.plan.lock().unwrap() = FaultPlan::default();
+    rec.log.lock().unwrap().clear();
+    rec.writes.store(0, Ordering::SeqCst);
+    rec.fd.store(-2, Ordering::SeqCst);
+    rec.enabled.store(true, Ordering::SeqCst);
+    let finish = |rec: &Arc<Recorder>| { *rec.plan.lock().unwrap() = FaultPlan::default(); rec.enabled.store(false, Ordering::SeqCst); rec.fd.store(-1, Ordering::SeqCst); };
+    let Ok(mut store) = open_store(&path, blocks, false) else { finish(rec); return };
+    let n = rng.range(6, 14);
+    let keys: Vec<Vec<u8>> = (0..n).map(|i| format!("ou{}-{:03}", idx, i).into_bytes()).collect();
+    // a durable base generation for half of the keys
+    for k in keys.iter().step_by(2) { let _ = store.insert(k, &rng.bytes(120)); }
+    if store.flush().is_err() { finish(rec); return; }
+    // the outage: every device write from now on fails before it lands
+    let first = |rng: &mut Rng| rng.bytes(100);
+    for k in &keys { let _ = store.insert(k, &first(rng)); }
+    rec.plan.lock().unwrap().persistent_from_write = Some(rec.writes.load(Ordering::SeqCst) + 1);
+    let r1 = store.flush().is_ok();
+    for k in &keys { let _ = store.insert(k, &rng.bytes(140)); }
+    std::thread::sleep(std::time::Duration::from_millis(rng.range(150, 350)));
+    let r2 = store.flush().is_ok();
+    std::thread::sleep(std::time::Duration::from_millis(120));
+    // the device works again
+    rec.plan.lock().unwrap().persistent_from_write = None;
+    out.count("outage-with-updates case");
+    let mut reopened = false;
+    let mut acked = store.flush().is_ok();
+    if !acked {
+        // an indeterminate failure: the property asks for a reopen
+        drop(store);
+        rec.fd.store(-2, Ordering::SeqCst);
+        match open_store(&path, blocks, false) { Ok(s) => { store = s; reopened = true; } Err(_) => { finish(rec); let _ = std::fs::remove_file(&path); return; } }
+        for k in &keys { let _ = store.insert(k, &rng.bytes(90)); }
+        acked = store.flush().is_ok();
+    }
+    if !acked { out.count("outage-with-updates: no flush acknowledged after the outage"); drop(store); finish(rec); let _ = std::fs::remove_file(&path); return; }
+    if r1 || r2 { out.count("outage-with-updates: a flush during the outage said Ok"); }
+    // acknowledged deletes of every key
+    for k in &keys { let _ = store.delete(k); }
+    if store.flush().is_err() { drop(store); finish(rec); let _ = std::fs::remove_file(&path); return; }
+    // the device as it stands (everything acknowledged is fsynced; nothing is pending)
+    let trace: Vec<Ev> = rec.log.lock().unwrap().clone();
+    let cp = format!("{}/outupd{}_asis.feox", dir, idx);
+    let _ = std::fs::copy(&path, &cp);
+    let keep = format!("{}.orig", cp);
+    let _ = std::fs::copy(&path, &keep);
+    let _ = trace;
+    let verdict = match recover(&cp, blocks) {
+        Err(e) => Some(format!("the device as it stands does not recover: {}", e)),
+        Ok(rv) => {
+            let back: Vec<String> = keys.iter().filter(|k| rv.contents.contains_key(*k)).map(|k| hex(k)).collect();
+            if back.is_empty() { None } else { Some(format!("{} of {} keys whose delete was acknowledged by flush() after the outage are back after a recovery of the device as it stands (first {})", back.len(), n, back[0])) }
+        }
+    };
+    drop(store);
+    finish(rec);
+    let _ = std::fs::remove_file(&cp);
+    match verdict {
+        Some(why) => {
+            let what = format!("outage spanning two flush attempts with updates in between ({}; flushes during the outage: {} / {}): {}", if reopened { "file reopened after the outage" } else { "same handle after the outage" }, r1, r2, why);
+            out.fail("C09", what.clone(), &keep);
+            out.fail("C02", what, &keep);
+        }
+        None => { let _ = std::fs::remove_file(&keep); }
+    }
+    let _ = std::fs::remove_file(&path);
+}
+
 /// a long write-behind queue meets a failing journal write: the first record writes are slow, so
 /// thousands of accepted writes pile up behind the worker and the next pass has several
 /// 1024-entry transactions per shard; a few journal intent writes then fail.  Once the device
@@ -2035,6 +2111,7 @@ fn main() {
             fault_run(&mut rng, &mut out, &rec, &args.out.clone(), args.seed * 100 + i);
             stale_head_run(&mut rng, &mut out, &rec, &args.out.clone(), i);
             if i == 0 { long_queue_fault_run(&mut rng, &mut out, &rec, &args.out.clone(), i); }
+            outage_update_run(&mut rng, &mut out, &rec, &args.out.clone(), i);
         }
     }
     if has("hazard") {
